@@ -16,7 +16,9 @@ pub fn rule_selected(ctx: &Ctx, gi: usize, ri: usize) -> bool {
     // wrapper-free corpus: every rule of the typed grammar is an entry point
     let _ = name;
     match ctx.opts.lens.as_str() {
-        "C15" => g.rules[ri].kind != Kind::Silent,
+        "C15" => g.rules[ri].kind != Kind::Silent && ctx.entries[gi].rules[ri].tree.is_some(),
+        "C16" => ctx.entries[gi].rules[ri].getters.is_some(),
+        "C17" => ctx.entries[gi].rules[ri].acc.is_some(),
         _ => true,
     }
 }
@@ -143,6 +145,23 @@ fn ill_founded(g: &Grammar, ri: usize, input: &str) -> bool {
 fn inputs_for(ctx: &Ctx, e: &GrammarEntry, shrink: usize) -> Vec<String> {
     if let Some(s) = &ctx.opts.only_input {
         return vec![s.clone()];
+    }
+    if let Some(list) = e.inputs {
+        if list.len() == 1 && list[0] == "<<ALL-SCALARS>>" {
+            // every Unicode scalar value as a one-character string (thorough); quick: everything below
+            // U+3000 plus the first, middle and last scalar of every later 256-block
+            let mut v = vec![String::new()];
+            for cp in 0u32..=0x10FFFF {
+                if let Some(c) = char::from_u32(cp) {
+                    let low = cp & 0xff;
+                    if ctx.opts.thorough || cp < 0x3000 || low == 0 || low == 0x80 || low == 0xff {
+                        v.push(c.to_string());
+                    }
+                }
+            }
+            return v;
+        }
+        return list.iter().map(|s| s.to_string()).collect();
     }
     let alpha: Vec<char> = e.alphabet.chars().collect();
     let n = ctx.len_for(e).saturating_sub(shrink);
@@ -290,6 +309,11 @@ pub fn explore_rule(ctx: &Ctx, gi: usize, ri: usize, rep: &mut Report, note: &dy
         "C09" => c09(ctx, gi, ri, rep, note),
         "C10" => c10(ctx, gi, ri, rep, note),
         "C11" => c11(ctx, gi, ri, rep, note),
+        "C15" => c15(ctx, gi, ri, rep, note),
+        "C16" => c16(ctx, gi, ri, rep, note),
+        "C17" => c17(ctx, gi, ri, rep, note),
+        "C18" => c18(ctx, gi, ri, rep, note),
+        "C20" => c20(ctx, gi, ri, rep, note),
         other => {
             rep.model_error(format!("unknown lens {}", other));
         }
@@ -1233,6 +1257,701 @@ fn c11(ctx: &Ctx, gi: usize, ri: usize, rep: &mut Report, note: &dyn Fn(&str)) {
                 }
             }
             Err(p) => rep.violation(case.violation("typed-panic", "returns".into(), format!("panic: {}", p), String::new())),
+        }
+    }
+}
+
+// ---------------------------------------------------------------------------------------------
+// C15: traversal helpers
+
+fn pre_order_ref(t: &Tok, depth: usize, out: &mut Vec<(u16, usize, usize, usize)>) {
+    out.push((t.rule, t.start, t.end, depth));
+    for c in &t.children {
+        pre_order_ref(c, depth + 1, out);
+    }
+}
+
+fn level_order_ref(t: &Tok) -> Vec<(u16, usize, usize)> {
+    let mut out = vec![];
+    let mut level = vec![t];
+    while !level.is_empty() {
+        let mut next = vec![];
+        for x in level {
+            out.push((x.rule, x.start, x.end));
+            for c in &x.children {
+                next.push(c);
+            }
+        }
+        level = next;
+    }
+    out
+}
+
+fn nesting_ok(t: &Tok) -> bool {
+    let mut prev_end = t.start;
+    for c in &t.children {
+        if !(c.start >= prev_end && c.start <= c.end && c.end <= t.end && nesting_ok(c)) {
+            return false;
+        }
+        prev_end = c.end;
+    }
+    true
+}
+
+fn render_expected(g: &Grammar, input: &str, t: &Tok, depth: usize, out: &mut String) {
+    let name = g.rule_name(t.rule);
+    if t.children.is_empty() {
+        out.push_str(&format!("{}{} {:?}\n", "    ".repeat(depth), name, &input[t.start..t.end]));
+    } else {
+        out.push_str(&format!("{}{}\n", "    ".repeat(depth), name));
+    }
+    for c in &t.children {
+        render_expected(g, input, c, depth + 1, out);
+    }
+}
+
+fn c15(ctx: &Ctx, gi: usize, ri: usize, rep: &mut Report, note: &dyn Fn(&str)) {
+    let e = &ctx.entries[gi];
+    let g = &ctx.grammars[gi];
+    let inputs = inputs_for(ctx, e, 0);
+    let runner = match e.rules[ri].tree {
+        Some(r) => r,
+        None => return,
+    };
+    for input in &inputs {
+        let case = Case {
+            ctx,
+            gi,
+            ri,
+            input,
+            form: Form::Str,
+            a: 0,
+            b: input.len(),
+            init: &[],
+        };
+        note(&case.id());
+        let b = base::base(g, e, ri, input, &[], Atom::NonAtomic, rep);
+        if b.ill_founded || !b.exp_ok {
+            continue;
+        }
+        rep.cases += 1;
+        let req = case.req(what::TREE);
+        let o = match std::panic::catch_unwind(std::panic::AssertUnwindSafe(|| runner(&req))) {
+            Ok(Some(o)) => o,
+            Ok(None) => {
+                rep.cell("skipped-typed-rejects");
+                continue;
+            }
+            Err(_) => {
+                rep.violation(case.violation("typed-panic", "traversals".into(), "panic".into(), String::new()));
+                continue;
+            }
+        };
+        rep.impl_validated += 1;
+        // reference traversals run over the typed token tree itself; that tree is tied to pest by C02
+        let exp = pruned(g, &b.exp_toks);
+        let root_owned = match &o.token {
+            Some(t) => t.clone(),
+            None => continue,
+        };
+        let root = &root_owned;
+        if exp.len() != 1 || &exp[0] != root {
+            rep.cell("token-tree-differs-from-pest (see C02)");
+        }
+        let exp = vec![root_owned.clone()];
+        let count = root.count();
+        if count >= 2 {
+            rep.nontrivial += 1;
+        }
+        rep.outcome(format!("{}", show_toks(g, &exp)));
+        let mut bad: Vec<(&str, String, String)> = vec![];
+        if o.token.as_ref() != Some(root) {
+            bad.push(("as-token", show_toks(g, &exp), o.token.as_ref().map(|t| show_toks(g, &[t.clone()])).unwrap_or_default()));
+        }
+        if o.thin.as_ref() != Some(root) || !o.thin_matches_spanned {
+            bad.push(("thin-token", show_toks(g, &exp), o.thin.as_ref().map(|t| show_toks(g, &[t.clone()])).unwrap_or_default()));
+        }
+        if o.children != root.children {
+            bad.push(("children", show_toks(g, &root.children), show_toks(g, &o.children)));
+        }
+        if !nesting_ok(root) {
+            bad.push(("span-nesting", "children nested in the parent and ordered".into(), show_toks(g, &exp)));
+        }
+        if o.has_tree {
+            let mut pre = vec![];
+            pre_order_ref(root, 0, &mut pre);
+            if o.pre_order != pre {
+                bad.push(("pre-order", format!("{:?}", pre), format!("{:?}", o.pre_order)));
+            }
+            let lvl = level_order_ref(root);
+            if o.level_order != lvl {
+                bad.push(("level-order", format!("{:?}", lvl), format!("{:?}", o.level_order)));
+            }
+            let mut r = String::new();
+            render_expected(g, input, root, 0, &mut r);
+            if o.formatted.as_deref() != Some(r.as_str()) {
+                bad.push(("format-as-tree", r.clone(), o.formatted.clone().unwrap_or_default()));
+            }
+            let want: Vec<usize> = (1..=count).collect();
+            if o.early_exit_pre != want {
+                bad.push(("early-exit-pre-order", format!("{:?}", want), format!("{:?}", o.early_exit_pre)));
+            }
+            if o.early_exit_level != want {
+                bad.push(("early-exit-level-order", format!("{:?}", want), format!("{:?}", o.early_exit_level)));
+            }
+        }
+        for (sig, ex, ac) in bad {
+            rep.violation(case.violation(sig, ex, ac, String::new()));
+        }
+        if rep.samples.len() < 3 && count >= 4 && o.has_tree {
+            rep.sample(case.sample(o.formatted.as_deref().unwrap_or(""), J::s(&format!("pre-order {:?}", o.pre_order))));
+        }
+    }
+}
+
+// ---------------------------------------------------------------------------------------------
+// C16: generated getters
+
+#[derive(Clone, Debug, PartialEq)]
+enum Shape {
+    R,
+    Opt(Box<Shape>),
+    Vec(Box<Shape>),
+    Tuple(Vec<Shape>),
+}
+
+impl Shape {
+    fn show(&self) -> String {
+        match self {
+            Shape::R => "R".into(),
+            Shape::Opt(x) => format!("Option<{}>", x.show()),
+            Shape::Vec(x) => format!("Vec<{}>", x.show()),
+            Shape::Tuple(v) => format!("({})", v.iter().map(|x| x.show()).collect::<Vec<_>>().join(",")),
+        }
+    }
+}
+
+fn opt_shape(s: Shape) -> Shape {
+    // directly nested options collapse
+    match s {
+        Shape::Opt(_) => s,
+        other => Shape::Opt(Box::new(other)),
+    }
+}
+
+fn join_shapes(v: Vec<Shape>) -> Option<Shape> {
+    match v.len() {
+        0 => None,
+        1 => v.into_iter().next(),
+        _ => Some(Shape::Tuple(v)),
+    }
+}
+
+/// Shape of the getter for `name` over expression `n`: wrapped by Option for `?` / an alternative,
+/// by Vec for a repetition, a tuple for several mentions.
+fn shape_of(n: &Node, name: &str) -> Option<Shape> {
+    match &n.ex {
+        Ex::Ident(id, _) => {
+            if id == name {
+                Some(Shape::R)
+            } else {
+                None
+            }
+        }
+        Ex::NegPred(_) => None,
+        Ex::PosPred(e) | Ex::Push(e) | Ex::Restore(e) => shape_of(e, name),
+        Ex::Opt(e) => shape_of(e, name).map(opt_shape),
+        Ex::Rep(e) | Ex::RepOnce(e) => shape_of(e, name).map(|s| Shape::Vec(Box::new(s))),
+        Ex::Seq(v) => join_shapes(v.iter().filter_map(|x| shape_of(x, name)).collect()),
+        Ex::Choice(v) => join_shapes(v.iter().filter_map(|x| shape_of(x, name).map(opt_shape)).collect()),
+        _ => None,
+    }
+}
+
+/// Direct matches of `name` in the match tree of a rule body, in expression order
+/// (not descending into other rules, nothing from negative predicates).
+fn direct_matches(n: &m::MNode, g: &Grammar, name: &str, out: &mut Vec<(usize, usize)>) {
+    use m::MNode::*;
+    match n {
+        Leaf { .. } | Neg => {}
+        Rule { rule, start, end, .. } => {
+            if g.rule_name(*rule) == name {
+                out.push((*start, *end));
+            }
+        }
+        Builtin { name: bn, start, end, .. } => {
+            if bn == name {
+                out.push((*start, *end));
+            }
+        }
+        Seq(v) | Rep(v) => {
+            for (_, x) in v {
+                direct_matches(x, g, name, out);
+            }
+        }
+        Choice(_, x) | Push(x) | Pos(x) => direct_matches(x, g, name, out),
+        Opt(o) => {
+            if let Some(x) = o {
+                direct_matches(x, g, name, out)
+            }
+        }
+    }
+}
+
+fn c16(ctx: &Ctx, gi: usize, ri: usize, rep: &mut Report, note: &dyn Fn(&str)) {
+    let e = &ctx.entries[gi];
+    let g = &ctx.grammars[gi];
+    let inputs = inputs_for(ctx, e, 0);
+    let runner = match e.rules[ri].getters {
+        Some(r) => r,
+        None => return,
+    };
+    for input in &inputs {
+        let case = Case {
+            ctx,
+            gi,
+            ri,
+            input,
+            form: Form::Str,
+            a: 0,
+            b: input.len(),
+            init: &[],
+        };
+        note(&case.id());
+        let b = base::base(g, e, ri, input, &[], Atom::NonAtomic, rep);
+        if b.ill_founded || b.m.ok.is_none() {
+            continue;
+        }
+        let (m_end, body) = match &b.m.ok {
+            Some((end, _, m::MNode::Rule { inner, .. })) => (*end, inner.as_ref().clone()),
+            _ => continue,
+        };
+        // the typed parse must be the one the model describes (C01's business otherwise)
+        let pp = match typed(e, ri, &case.req(what::PP | what::DEBUG)) {
+            Ok(o) => o.pp.unwrap(),
+            Err(_) => continue,
+        };
+        if !pp.ok || pp.end != m_end {
+            rep.cell("skipped-prefix-differs-from-model");
+            continue;
+        }
+        rep.cases += 1;
+        let req = case.req(what::GETTERS);
+        let got = match std::panic::catch_unwind(std::panic::AssertUnwindSafe(|| runner(&req))) {
+            Ok(Some(v)) => v,
+            Ok(None) => continue,
+            Err(_) => {
+                rep.violation(case.violation("typed-panic", "getter values".into(), "panic".into(), String::new()));
+                continue;
+            }
+        };
+        rep.impl_validated += 1;
+        let debug = pp.debug.clone().unwrap_or_default();
+        let mut any = false;
+        for go in &got {
+            let name = go.name;
+            let mut exp = vec![];
+            direct_matches(&body, g, name, &mut exp);
+            if !exp.is_empty() {
+                any = true;
+            }
+            let exp_shape = shape_of(&g.rules[ri].body, name).map(|s| s.show()).unwrap_or_default();
+            rep.outcome(format!("{}:{}", exp_shape, exp.len()));
+            rep.cell(&format!("shape:{}", exp_shape));
+            if go.shape != exp_shape {
+                rep.violation(case.violation(
+                    "getter-shape",
+                    format!("{}() : {}", name, exp_shape),
+                    format!("{}() : {}", name, go.shape),
+                    String::new(),
+                ));
+                continue;
+            }
+            let got_spans: Vec<Option<(usize, usize)>> = go.leaves.iter().map(|l| l.span).collect();
+            let mut bad = go.leaves.len() != exp.len();
+            if !bad {
+                for (l, ex) in go.leaves.iter().zip(exp.iter()) {
+                    if let Some(sp) = l.span {
+                        if sp != *ex {
+                            bad = true;
+                        }
+                    }
+                }
+            }
+            if bad {
+                rep.violation(case.violation(
+                    "getter-nodes",
+                    format!("{}() yields the direct matches {:?}", name, exp),
+                    format!("{} nodes with spans {:?}", go.leaves.len(), got_spans),
+                    String::new(),
+                ));
+                continue;
+            }
+            // "the very node stored in r's content": the Debug renderings occur in r's rendering, in order
+            let mut from = 0usize;
+            for l in &go.leaves {
+                match debug[from..].find(&l.debug) {
+                    Some(i) => from += i + 1,
+                    None => {
+                        rep.violation(case.violation(
+                            "getter-node-not-in-content",
+                            format!("{} inside the content of {}", l.debug, e.rules[ri].name),
+                            "not found (in order)".into(),
+                            String::new(),
+                        ));
+                        break;
+                    }
+                }
+            }
+        }
+        if any {
+            rep.nontrivial += 1;
+        }
+        if rep.samples.len() < 3 && got.iter().any(|x| x.leaves.len() >= 2) {
+            let gx = got.iter().find(|x| x.leaves.len() >= 2).unwrap();
+            rep.sample(case.sample(
+                &format!("{}() : {} -> {:?}", gx.name, gx.shape, gx.leaves.iter().map(|l| l.span).collect::<Vec<_>>()),
+                J::s("equals the direct matches recorded by the reference machine"),
+            ));
+        }
+    }
+}
+
+// ---------------------------------------------------------------------------------------------
+// C17: choice / sequence / repetition accessors
+
+fn span_of_m(n: &m::MNode) -> Option<(usize, usize)> {
+    use m::MNode::*;
+    match n {
+        Leaf { start, end } | Rule { start, end, .. } | Builtin { start, end, .. } => Some((*start, *end)),
+        Seq(v) | Rep(v) => {
+            let first = v.first().and_then(|x| span_of_m(&x.1))?;
+            let last = v.last().and_then(|x| span_of_m(&x.1))?;
+            Some((first.0, last.1))
+        }
+        Choice(_, x) | Push(x) => span_of_m(x),
+        _ => None,
+    }
+}
+
+fn skipped_spans(sk: &[m::MNode]) -> Vec<(usize, usize)> {
+    let mut toks = vec![];
+    for s in sk {
+        s.tokens(&mut toks);
+    }
+    toks.iter().map(|t| (t.start, t.end)).collect()
+}
+
+fn c17(ctx: &Ctx, gi: usize, ri: usize, rep: &mut Report, note: &dyn Fn(&str)) {
+    let e = &ctx.entries[gi];
+    let g = &ctx.grammars[gi];
+    let inputs = inputs_for(ctx, e, 0);
+    let runner = match e.rules[ri].acc {
+        Some(r) => r,
+        None => return,
+    };
+    for input in &inputs {
+        let case = Case {
+            ctx,
+            gi,
+            ri,
+            input,
+            form: Form::Str,
+            a: 0,
+            b: input.len(),
+            init: &[],
+        };
+        note(&case.id());
+        let b = base::base(g, e, ri, input, &[], Atom::NonAtomic, rep);
+        if b.ill_founded {
+            continue;
+        }
+        let body = match &b.m.ok {
+            Some((_, _, m::MNode::Rule { inner, .. })) => inner.as_ref().clone(),
+            _ => continue,
+        };
+        if !b.defined {
+            rep.cell("pest-undefined");
+        }
+        rep.cases += 1;
+        let req = case.req(0);
+        let o = match std::panic::catch_unwind(std::panic::AssertUnwindSafe(|| runner(&req))) {
+            Ok(Some(o)) => o,
+            Ok(None) => {
+                rep.violation(case.violation("typed-rejects", exp_str(&b), "None".into(), String::new()));
+                continue;
+            }
+            Err(_) => {
+                rep.violation(case.violation("typed-panic", "accessor values".into(), "panic".into(), String::new()));
+                continue;
+            }
+        };
+        rep.impl_validated += 1;
+        rep.nontrivial += 1;
+        match (&body, o.kind) {
+            (m::MNode::Choice(idx, inner), "choice") => {
+                rep.cell(&format!("choice-arity-{}-alt-{}", o.accessors.len(), idx));
+                rep.outcome(format!("choice:{}:{}", o.accessors.len(), idx));
+                let some: Vec<usize> = o.accessors.iter().enumerate().filter(|(_, a)| a.is_some()).map(|(i, _)| i).collect();
+                if some != vec![*idx] {
+                    rep.violation(case.violation("choice-accessors", format!("only _{}() is Some", idx), format!("Some at {:?}", some), String::new()));
+                } else if o.accessors[*idx] != span_of_m(inner) {
+                    rep.violation(case.violation("choice-accessor-node", format!("{:?}", span_of_m(inner)), format!("{:?}", o.accessors[*idx]), String::new()));
+                }
+                if o.chain != Some(*idx) {
+                    rep.violation(case.violation("choice-chain", format!("closure {}", idx), format!("closure {:?}", o.chain), "if_then / else_if / else_then".into()));
+                }
+                if o.match_choices != Some(*idx) {
+                    rep.violation(case.violation("match-choices", format!("arm {}", idx), format!("arm {:?}", o.match_choices), String::new()));
+                }
+            }
+            (m::MNode::Seq(items), "seq") => {
+                let spans: Vec<(usize, usize)> = items.iter().filter_map(|x| span_of_m(&x.1)).collect();
+                let sk: Vec<Vec<(usize, usize)>> = items.iter().map(|x| skipped_spans(&x.0)).collect();
+                rep.cell(&format!("seq-arity-{}", items.len()));
+                rep.outcome(format!("seq:{}:{}", items.len(), sk.iter().filter(|x| !x.is_empty()).count()));
+                for (label, got) in [("get_matched", &o.get_matched), ("as_ref", &o.as_ref), ("into_matched", &o.into_matched), ("get_all", &o.get_all_matched)] {
+                    if got != &spans {
+                        rep.violation(case.violation(&format!("sequence-{}", label), format!("{:?}", spans), format!("{:?}", got), String::new()));
+                    }
+                }
+                if o.skipped != sk {
+                    rep.violation(case.violation("sequence-skipped", format!("{:?}", sk), format!("{:?}", o.skipped), "text skipped before each element".into()));
+                }
+                if sk.iter().any(|x| !x.is_empty()) {
+                    rep.cell("sequence-with-skipped-text");
+                }
+            }
+            (m::MNode::Rep(items), "rep") => {
+                let spans: Vec<(usize, usize)> = items.iter().filter_map(|x| span_of_m(&x.1)).collect();
+                let sk: Vec<Vec<(usize, usize)>> = items.iter().map(|x| skipped_spans(&x.0)).collect();
+                rep.cell(&format!("rep-iterations-{}", items.len().min(9)));
+                rep.outcome(format!("rep:{}", items.len()));
+                for (label, got) in [("iter_matched", &o.iter_matched), ("into_iter_matched", &o.into_iter_matched), ("iter_all", &o.iter_all_matched)] {
+                    if got != &spans {
+                        rep.violation(case.violation(&format!("repetition-{}", label), format!("{:?}", spans), format!("{:?}", got), String::new()));
+                    }
+                }
+                if o.skipped != sk {
+                    rep.violation(case.violation("repetition-skipped", format!("{:?}", sk), format!("{:?}", o.skipped), String::new()));
+                }
+            }
+            (other, k) => {
+                rep.model_error(format!("accessor kind {} does not fit the match tree {:?}", k, other));
+            }
+        }
+        if rep.samples.len() < 3 && o.kind == "seq" && o.skipped.iter().any(|x| !x.is_empty()) {
+            rep.sample(case.sample(&format!("get_matched {:?} skipped {:?}", o.get_matched, o.skipped), J::s("as in the reference machine's match tree")));
+        }
+    }
+}
+
+// ---------------------------------------------------------------------------------------------
+// C18: results are deterministic values, stable under clone / eq / hash
+
+fn c18(ctx: &Ctx, gi: usize, ri: usize, rep: &mut Report, note: &dyn Fn(&str)) {
+    let e = &ctx.entries[gi];
+    let g = &ctx.grammars[gi];
+    let inputs = inputs_for(ctx, e, 0);
+    let cmp = e.rules[ri].compare;
+    let max = ctx.len_for(e);
+    for input in &inputs {
+        let case = Case {
+            ctx,
+            gi,
+            ri,
+            input,
+            form: Form::Str,
+            a: 0,
+            b: input.len(),
+            init: &[],
+        };
+        note(&case.id());
+        if ill_founded(g, ri, input) {
+            rep.ill_founded += 1;
+            continue;
+        }
+        rep.cases += 1;
+        let o = match typed(e, ri, &case.req(what::EQH | what::PP | what::DEBUG)) {
+            Ok(o) => o,
+            Err(p) => {
+                rep.violation(case.violation("typed-panic", "a value".into(), format!("panic: {}", p), String::new()));
+                continue;
+            }
+        };
+        // the same call again gives the same observation (no state kept between calls)
+        match typed(e, ri, &case.req(what::EQH | what::PP | what::DEBUG)) {
+            Ok(o2) if o2 == o => rep.determinism_checked += 1,
+            _ => rep.violation(case.violation("observation-differs-on-second-call", "identical".into(), "different".into(), String::new())),
+        }
+        rep.impl_validated += 1;
+        if let Some(q) = &o.eqh {
+            rep.nontrivial += 1;
+            rep.outcome(format!("{}", q.hash % 97));
+            let mut bad = vec![];
+            if !q.twice_eq {
+                bad.push("parsing twice gives unequal trees");
+            }
+            if !q.twice_hash_eq {
+                bad.push("parsing twice gives different hashes");
+            }
+            if !q.twice_debug_eq {
+                bad.push("parsing twice gives different Debug renderings");
+            }
+            if !q.clone_eq {
+                bad.push("clone != original");
+            }
+            if !q.clone_hash_eq {
+                bad.push("clone hashes differently");
+            }
+            if !bad.is_empty() {
+                rep.violation(case.violation("eq-hash-clone", "equal, equal hashes".into(), bad.join("; "), String::new()));
+            }
+        }
+        // pairs of (sub-)inputs of one string object
+        if let (Some(cmp), true) = (cmp, e.all_forms && (input.len() + 1 <= max || ctx.opts.only_input.is_some())) {
+            let forms = forms_of(e, input, true);
+            for (i, f1) in forms.iter().enumerate() {
+                for f2 in &forms[i..] {
+                    rep.cases += 1;
+                    let r = std::panic::catch_unwind(|| cmp(input, *f1, *f2));
+                    match r {
+                        Ok(Some((eq, heq, deq))) => {
+                            rep.impl_validated += 1;
+                            if f1 != f2 {
+                                rep.nontrivial += 1;
+                            }
+                            rep.cell(if eq { "pair-equal" } else { "pair-unequal" });
+                            if eq != deq || (eq && !heq) {
+                                let c2 = Case {
+                                    ctx,
+                                    gi,
+                                    ri,
+                                    input,
+                                    form: f1.0,
+                                    a: f1.1,
+                                    b: f1.2,
+                                    init: &[],
+                                };
+                                rep.violation(c2.violation(
+                                    "eq-not-structural",
+                                    format!("== exactly when the Debug renderings are identical (then equal hashes); Debug equal: {}", deq),
+                                    format!("== {} ; hashes equal: {}", eq, heq),
+                                    format!("second operand {:?}[{}..{}]", f2.0, f2.1, f2.2),
+                                ));
+                            }
+                        }
+                        Ok(None) => {}
+                        Err(_) => rep.violation(case.violation("typed-panic", "a comparison".into(), "panic".into(), String::new())),
+                    }
+                }
+            }
+        }
+        if rep.samples.len() < 2 {
+            if let (Some(q), Some(pp)) = (&o.eqh, &o.pp) {
+                if pp.end > 1 {
+                    rep.sample(case.sample(&format!("hash {:016x}", q.hash), J::s("parse twice: equal, equal hash, equal Debug; clone equal")));
+                }
+            }
+        }
+    }
+}
+
+// ---------------------------------------------------------------------------------------------
+// C20 (E1 half): the same grammar under every option set accepts the same inputs, consumes the same
+// offsets and yields the same pair tree (compared with pest / M, as the default variant is by C01/C02).
+
+/// The rule (or a rule it reaches) uses `+` or a counted repetition in its source text.
+fn uses_plus_or_counted(g: &Grammar, e: &GrammarEntry, ri: usize) -> bool {
+    fn walk(g: &Grammar, n: &Node, seen: &mut BTreeSet<usize>) {
+        match &n.ex {
+            Ex::Ident(_, Target::Rule(i)) => {
+                if seen.insert(*i) {
+                    walk(g, &g.rules[*i].body, seen);
+                }
+            }
+            Ex::PosPred(x) | Ex::NegPred(x) | Ex::Opt(x) | Ex::Rep(x) | Ex::RepOnce(x) | Ex::Push(x) | Ex::Restore(x) => walk(g, x, seen),
+            Ex::Seq(v) | Ex::Choice(v) => {
+                for x in v {
+                    walk(g, x, seen)
+                }
+            }
+            _ => {}
+        }
+    }
+    let mut seen = BTreeSet::new();
+    seen.insert(ri);
+    walk(g, &g.rules[ri].body, &mut seen);
+    seen.iter().any(|i| {
+        let def = rule_def(e, &g.rules[*i].name);
+        let body = def.splitn(2, '=').nth(1).unwrap_or("");
+        // strip the braces of the rule itself
+        let inner = body.trim().trim_start_matches(|c| "_@$!".contains(c)).trim();
+        let inner = inner.strip_prefix('{').and_then(|x| x.strip_suffix('}')).unwrap_or(inner);
+        inner.contains('+') || inner.contains('{')
+    })
+}
+
+fn c20(ctx: &Ctx, gi: usize, ri: usize, rep: &mut Report, note: &dyn Fn(&str)) {
+    let e = &ctx.entries[gi];
+    let g = &ctx.grammars[gi];
+    let inputs = inputs_for(ctx, e, 0);
+    // known semantic gap of the option: `+` and counted repetitions are not unrolled, so the implicit
+    // skips that pest's unrolling takes between the copies are missing
+    let opt_off = e.options.contains("pest_optimizer = false") && g.has_skip() && uses_plus_or_counted(g, e, ri);
+    for input in &inputs {
+        let case = Case {
+            ctx,
+            gi,
+            ri,
+            input,
+            form: Form::Str,
+            a: 0,
+            b: input.len(),
+            init: &[],
+        };
+        note(&case.id());
+        let b = base::base(g, e, ri, input, &[], Atom::NonAtomic, rep);
+        if b.ill_founded {
+            rep.ill_founded += 1;
+            continue;
+        }
+        rep.cases += 1;
+        let o = match typed(e, ri, &case.req(what::PP | what::PF)) {
+            Ok(o) => o,
+            Err(p) => {
+                rep.violation(case.violation("typed-panic", exp_str(&b), format!("panic: {}", p), String::new()));
+                continue;
+            }
+        };
+        rep.impl_validated += 1;
+        if !e.options.is_empty() && e.options != "no_warnings = false" {
+            rep.nontrivial += 1;
+        }
+        rep.cell(&format!("options:{}", e.options));
+        rep.outcome(format!("{}:{}", b.exp_ok, b.exp_end));
+        let pp = o.pp.as_ref().unwrap();
+        let suffix = if opt_off { "-pest_optimizer-false-repetition-not-unrolled-with-skip-rules" } else { "" };
+        if pp.ok != b.exp_ok || (pp.ok && pp.end != b.exp_end) {
+            rep.violation(case.violation(&format!("option-changes-recognition{}", suffix), exp_str(&b), call_str(&o.pp), format!("options: {}", e.options)));
+        } else if pp.ok {
+            let exp = pruned(g, &b.exp_toks);
+            if exp != pp.toks {
+                rep.violation(case.violation(
+                    &format!("option-changes-tree{}", suffix),
+                    show_toks(g, &exp),
+                    show_toks(g, &pp.toks),
+                    format!("options: {}", e.options),
+                ));
+            }
+        }
+        let full = b.m.full_ok.unwrap_or(false);
+        let pf = o.pf.as_ref().unwrap();
+        if pp.ok == b.m.ok.is_some() && pf.ok != full && pp.ok == b.exp_ok && (!pp.ok || pp.end == b.exp_end) {
+            rep.violation(case.violation(&format!("option-changes-full-parse{}", suffix), format!("full={}", full), format!("try_parse ok={}", pf.ok), format!("options: {}", e.options)));
+        }
+        if rep.samples.len() < 2 && pp.ok && pp.end > 1 && e.options.contains("box_only") {
+            rep.sample(case.sample(&call_str(&o.pp), J::s(&format!("options [{}]: same as pest / default", e.options))));
         }
     }
 }
